@@ -78,7 +78,7 @@ def disc(ctx, fams, flavours):
         bad += ['FOUND@bb%d' % bi for bi, k, t in direct_founds if not _edge_dom(K, K.exec_true, bi)]
         O('i', not bad, 'not dominated by EXEC-true: ' + ', '.join(bad) if bad else 'EXEC-true edge bb%d->bb%d dominates all' % K.exec_true, 'EXEC')
         # (ii)
-        bad = [s for s in ('INSERT', 'RECORD', 'ADVANCE') if s in S and not _edge_dom(K, K.notvis, S[s])]
+        bad = [s for s in ('INSERT', 'RECORD', 'ADVANCE') if s in S and not _edge_dom(K, K.notvis, S[s]) and not (s == 'INSERT' and K.insert_is_test)]
         bad += ['FOUND@bb%d' % bi for bi, k, t in direct_founds if not _edge_dom(K, K.notvis, bi)]
         O('ii', not bad, 'not dominated by not-visited edge: ' + ', '.join(bad) if bad else 'not-visited edge bb%d->bb%d dominates all' % K.notvis, 'CONTAINS')
         # (iii)
@@ -88,12 +88,14 @@ def disc(ctx, fams, flavours):
             why.append('INSERT does not dominate ADVANCE')
         # every discovery is marked before the next edge is examined or the function returns without FOUND
         nv_t = K.notvis[1]
-        if nv_t != S['INSERT'] and _avoid_path(K, nv_t, S['NEXT'], {S['INSERT']}):
+        # with `if visited.insert(k)` the test itself marks; the discovery region starts behind its true edge
+        start = nv_t if K.insert_is_test else S['INSERT']
+        if not K.insert_is_test and nv_t != S['INSERT'] and _avoid_path(K, nv_t, S['NEXT'], {S['INSERT']}):
             ok = False
             why.append('a path from the not-visited edge back to next() avoids INSERT')
         # every newly marked node enters the frontier unless the search ends
         found_blocks = {bi for bi, k, t in K.founds}
-        if _avoid_path(K, S['INSERT'], S['NEXT'], {S['ADVANCE']} | found_blocks) and S['INSERT'] != S['ADVANCE']:
+        if _avoid_path(K, start, S['NEXT'], {S['ADVANCE']} | found_blocks) and start != S['ADVANCE']:
             ok = False
             why.append('a path from INSERT back to next() avoids ADVANCE (discovered node never expanded)')
         O('iii', ok, '; '.join(why) if why else 'INSERT bb%d dominates ADVANCE bb%d; no path skips either' % (S['INSERT'], S['ADVANCE']), 'INSERT')
@@ -112,7 +114,8 @@ def disc(ctx, fams, flavours):
             if not cfg.dominates(S['INSERT'], S['RECORD']) and not cfg.dominates(S['CONTAINS'], S['RECORD']):
                 ok = False
                 why.append('RECORD not dominated by the visited test')
-            if _avoid_path(K, S['INSERT'], S['NEXT'], {S['RECORD']}) and S['INSERT'] != S['RECORD']:
+            start = K.notvis[1] if K.insert_is_test else S['INSERT']
+            if _avoid_path(K, start, S['NEXT'], {S['RECORD']}) and start != S['RECORD']:
                 # found paths leave the loop; only paths that continue iterating matter
                 ok = False
                 why.append('a path from INSERT back to next() avoids RECORD (discovery edge lost)')
